@@ -9,6 +9,8 @@ import (
 	"math"
 
 	"github.com/reactivego/ivg"
+	"github.com/reactivego/ivg/decode"
+	"github.com/reactivego/ivg/encode"
 	"github.com/reactivego/ivg/raster/vec"
 	"github.com/reactivego/ivg/render"
 
@@ -26,7 +28,7 @@ func init() {
 	run.Register(&run.Prop{
 		ID:    "C16",
 		Title: "Pixels are invariant under re-expression of the same picture",
-		Rule:  "every case is a graphic (1..4 paths of all verbs incl. arcs, flat and gradient fills, colours through palette indices/registers/blends, optionally a skipped first path) rendered through raster/vec into RGBA or Alpha images of sizes {1,2,7,64,255,511,512,513,600,...}; relations checked: (a) rectangle at an offset inside a larger pre-filled image vs an own image, with a sentinel frame, (b) viewBox, coordinates and gradient matrix scaled by 2^k, k in [-12,12], (c) indirect colours vs the direct colours computed by the reference machine, (d) DrawOp=Src for all paths vs first drawn path with Src and the rest with Over, and Src results independent of the previous image content; non-trivial = at least one pixel of the reference rendering differs from the background; distinctness by hash of the graphic and configuration",
+		Rule:  "every case is a graphic (1..4 paths of all verbs incl. arcs, flat and gradient fills, colours through palette indices/registers/blends, optionally a skipped first path) rendered through raster/vec into RGBA or Alpha images of sizes {1,2,7,64,255,511,512,513,600,...}; a third of the graphics are 'exact' (every number survives the library's own encoding bit for bit) and half of their offset/scaled renderings are expressed as bytes (Encoder, then Decode) instead of direct calls; each case also fixes how the objects are obtained (one Renderer for all renderings or a fresh one each, &vec.Rasterizer{} or vec.NewRasterizer); relations checked: (a) rectangle at an offset inside a larger pre-filled image vs an own image, with a sentinel frame, (b) viewBox, coordinates and gradient matrix scaled by 2^k, k in [-12,12], (c) indirect colours vs the direct colours computed by the reference machine, (d) DrawOp=Src for all paths vs first drawn path with Src and the rest with Over, and Src results independent of the previous image content; non-trivial = at least one pixel of the reference rendering differs from the background; distinctness by hash of the graphic and configuration",
 		Assumptions: []string{
 			"golang.org/x/image/vector is deterministic and its result depends only on the path geometry relative to the rasterizer origin",
 			"IEEE-754 arithmetic commutes with scaling by a power of two in the exponent range used",
@@ -38,7 +40,7 @@ func init() {
 				}
 				return 20_000
 			}, Run: c16Case, CaseCPU: 120,
-				Min: map[string]int64{"graphics": 4000, "relation_offset": 4000, "relation_scale": 4000, "relation_colours": 4000, "relation_drawop": 4000, "relation_src_background": 3000, "lod_ranges": 3000, "one_renderer_for_all_renderings": 3000, "rasterizer_from_NewRasterizer": 3000, "sentinel_pixels": 100000, "rgba_images": 1000, "alpha_images": 1000,
+				Min: map[string]int64{"graphics": 4000, "relation_offset": 4000, "relation_scale": 4000, "relation_colours": 4000, "relation_drawop": 4000, "relation_src_background": 3000, "lod_ranges": 3000, "offset_rendering_expressed_as_bytes": 1500, "scaled_rendering_expressed_as_bytes": 1500, "one_renderer_for_all_renderings": 3000, "rasterizer_from_NewRasterizer": 3000, "sentinel_pixels": 100000, "rgba_images": 1000, "alpha_images": 1000,
 					"sizes_above_512": 50, "gradient_paths": 2000, "skipped_first_path": 500, "nontrivial_renderings": 3000}},
 		},
 	})
@@ -48,13 +50,22 @@ type c16Graphic struct {
 	vb  ivg.ViewBox
 	pal [64]color.RGBA
 	ops []rec.Op // after Reset
+	// exact: every number of the graphic (and of its power-of-two scalings)
+	// survives the library's own encoding bit for bit, so the graphic can also
+	// be expressed as bytes (Encoder, then Decode) without changing a pixel
+	exact bool
 }
 
 // c16Gen generates a graphic with moderate coordinates.
-func c16Gen(c *run.Ctx, r *run.Rng) *c16Graphic {
-	g := &c16Graphic{vb: ivg.ViewBox{MinX: -20, MinY: -35, MaxX: 40, MaxY: 31}}
+func c16Gen(c *run.Ctx, r *run.Rng, exact bool) *c16Graphic {
+	g := &c16Graphic{vb: ivg.ViewBox{MinX: -20, MinY: -35, MaxX: 40, MaxY: 31}, exact: exact}
 	if r.Bool() {
 		g.vb = ivg.ViewBox{MinX: float32(r.Range(-40, -1)), MinY: float32(r.Range(-40, -1)), MaxX: float32(r.Range(1, 40)), MaxY: float32(r.Range(1, 40))}
+	}
+	if exact && r.Bool() {
+		// bounds that are powers of two: their scalings land on the boundaries of the coordinate forms (64, 128, ...)
+		p := func() float32 { return float32(r.Pick(1, 2, 4, 8, 16, 32)) }
+		g.vb = ivg.ViewBox{MinX: -p(), MinY: -p(), MaxX: p(), MaxY: p()}
 	}
 	for i := range g.pal {
 		g.pal[i] = gen.Premul(r)
@@ -64,7 +75,17 @@ func c16Gen(c *run.Ctx, r *run.Rng) *c16Graphic {
 		}
 	}
 	coord := func(r *run.Rng) float32 { return float32(r.Uniform(-30, 30)) }
-	o := gen.Opts{Coord: coord, Angle: func(r *run.Rng) float32 { return float32(r.F64()) }}
+	angle := func(r *run.Rng) float32 { return float32(r.F64()) }
+	if exact {
+		coord = func(r *run.Rng) float32 {
+			if r.Chance(1, 8) {
+				return float32(r.Pick(1, 2, 4, 8, 16)) * float32(r.Pick(-1, 1))
+			}
+			return float32(r.Range(-1920, 1920)) / 64
+		}
+		angle = func(r *run.Rng) float32 { return float32(r.Intn(64)) / 64 }
+	}
+	o := gen.Opts{Coord: coord, Angle: angle}
 	// A reference machine follows the program while it is generated, so that
 	// a later path never reuses, through an untouched register, a gradient
 	// value whose stop and matrix registers have meanwhile been overwritten
@@ -111,10 +132,17 @@ func c16Gen(c *run.Ctx, r *run.Rng) *c16Graphic {
 				if i == 4 || i == 1 {
 					v = float32(r.Uniform(-0.5, 0.5))
 				}
+				if exact {
+					v = float32(math.Round(float64(v)*4096) / 4096)
+				}
 				add(rec.Op{K: rec.KSetNReg, Adj: uint8(i), F: [6]float32{v}})
 			}
 			for i := 0; i < nst; i++ {
-				add(rec.Op{K: rec.KSetNReg, Incr: true, F: [6]float32{(float32(i) + float32(r.Uniform(0.1, 0.9))) / float32(nst)}})
+				off := (float32(i) + float32(r.Uniform(0.1, 0.9))) / float32(nst)
+				if exact {
+					off = float32(math.Round(float64(off)*1024) / 1024)
+				}
+				add(rec.Op{K: rec.KSetNReg, Incr: true, F: [6]float32{off}})
 			}
 			add(rec.Op{K: rec.KSetCSel, Sel: uint8(cb)})
 			for i := 0; i < nst; i++ {
@@ -207,9 +235,18 @@ func fillPattern(img draw.Image, seed uint64) {
 var c16Objs struct {
 	reuse *render.Renderer
 	newRz bool
+	// viaBytes: renderings of the whole graphic go through Encoder and Decode
+	// (set for the offset and scale relations of exact graphics only; the
+	// reference rendering is always made by direct calls)
+	viaBytes bool
+	bytesErr string
 }
 
 func c16Render(dst draw.Image, rect image.Rectangle, op draw.Op, vb ivg.ViewBox, pal [64]color.RGBA, ops []rec.Op, only func(path int) bool) {
+	if c16Objs.viaBytes && only == nil {
+		c16RenderBytes(dst, rect, op, vb, pal, ops)
+		return
+	}
 	zp := c16Objs.reuse
 	if zp == nil {
 		zp = new(render.Renderer)
@@ -238,6 +275,39 @@ func c16Render(dst draw.Image, rect image.Rectangle, op draw.Op, vb ivg.ViewBox,
 			continue
 		}
 		rec.Apply(z, o)
+	}
+}
+
+// c16RenderBytes expresses the graphic as bytes with the library's own Encoder
+// (high resolution) and renders what Decode makes of them. Only used for exact
+// graphics. A graphic the Encoder or the decoder refuses leaves dst untouched,
+// which the pixel comparison reports.
+func c16RenderBytes(dst draw.Image, rect image.Rectangle, op draw.Op, vb ivg.ViewBox, pal [64]color.RGBA, ops []rec.Op) {
+	var e encode.Encoder
+	e.Reset(vb, pal)
+	e.HighResolutionCoordinates = true
+	for i := range ops {
+		rec.Apply(&e, &ops[i])
+	}
+	b, err := e.Bytes()
+	if err != nil {
+		c16Objs.bytesErr = "Encoder: " + err.Error()
+		return
+	}
+	b = append([]byte(nil), b...)
+	z := c16Objs.reuse
+	if z == nil {
+		z = new(render.Renderer)
+	}
+	if c16Objs.newRz {
+		vz := vec.NewRasterizer(dst)
+		vz.DrawOp = op
+		z.SetRasterizer(vz, rect)
+	} else {
+		z.SetRasterizer(&vec.Rasterizer{Dst: dst, DrawOp: op}, rect)
+	}
+	if err := decode.Decode(z, b); err != nil {
+		c16Objs.bytesErr = "Decode: " + err.Error()
 	}
 }
 
@@ -325,7 +395,10 @@ func firstDrawnPath(g *c16Graphic, height int) int {
 
 func c16Case(c *run.Ctx, idx uint64) {
 	r := c.Rng(idx)
-	g := c16Gen(c, r)
+	exact := r.Chance(1, 3)
+	g := c16Gen(c, r, exact)
+	c16Objs.viaBytes, c16Objs.bytesErr = false, ""
+	defer func() { c16Objs.viaBytes = false }()
 	w, h := r.Range(1, 90), r.Range(1, 90)
 	switch r.Intn(12) {
 	case 0:
@@ -400,7 +473,17 @@ func c16Case(c *run.Ctx, idx uint64) {
 		rect := image.Rectangle{Min: off, Max: off.Add(size)}
 		draw.Draw(big, rect, ownBg, image.Point{}, draw.Src)
 		bigBefore := append([]byte(nil), pixOf(big)...)
-		if !c.Guard("render at offset", func() interface{} { return desc(nil) }, func() { c16Render(big, rect, op, g.vb, g.pal, g.ops, nil) }) {
+		c16Objs.viaBytes = exact && r.Bool()
+		if c16Objs.viaBytes {
+			c.Count("offset_rendering_expressed_as_bytes", 1)
+		}
+		okA := c.Guard("render at offset", func() interface{} { return desc(nil) }, func() { c16Render(big, rect, op, g.vb, g.pal, g.ops, nil) })
+		c16Objs.viaBytes = false
+		if !okA {
+			return
+		}
+		if c16Objs.bytesErr != "" {
+			c.Violate("offset/graphic-not-expressible-as-bytes", desc(map[string]interface{}{"error": c16Objs.bytesErr}))
 			return
 		}
 		c.Count("relation_offset", 1)
@@ -435,9 +518,21 @@ func c16Case(c *run.Ctx, idx uint64) {
 		img := newImg(rgba, own)
 		fillPattern(img, bg)
 		sc := scaleOps(g.ops, s)
-		if !c.Guard("render scaled", func() interface{} { return desc(map[string]interface{}{"k": k}) }, func() { c16Render(img, own, op, vb, g.pal, sc, nil) }) {
+		c16Objs.viaBytes = exact && r.Bool()
+		if c16Objs.viaBytes {
+			c.Count("scaled_rendering_expressed_as_bytes", 1)
+		}
+		okB := c.Guard("render scaled", func() interface{} { return desc(map[string]interface{}{"k": k}) }, func() { c16Render(img, own, op, vb, g.pal, sc, nil) })
+		viaB := c16Objs.viaBytes
+		c16Objs.viaBytes = false
+		if !okB {
 			return
 		}
+		if c16Objs.bytesErr != "" {
+			c.Violate("scale/graphic-not-expressible-as-bytes", desc(map[string]interface{}{"k": k, "error": c16Objs.bytesErr}))
+			return
+		}
+		_ = viaB
 		c.Count("relation_scale", 1)
 		if !bytes.Equal(pixOf(img), pixOf(base)) {
 			c.Violate("scale/pixels-differ", desc(map[string]interface{}{"k": k, "differing_bytes": diffCount(pixOf(img), pixOf(base))}))
